@@ -40,6 +40,18 @@ Proof. induction l as [|x r IH]; intros Hfg Hd; [exists 0; reflexivity|]. cbn [m
   - destruct (Hfg x (or_introl eq_refl)) as [m1 H1]; [rewrite Ex; reflexivity|].
     exists m1. intros m' Hm'. rewrite H1 by lia. rewrite Ex. reflexivity. Qed.
 
+(* the hashing conversions (hash-as-produced) follow the conversion they wrap *)
+Lemma ev_hashing (rt : runtime) {A B} (key : B -> pv) (f : A -> res B) (g : nat -> A -> res B) x :
+  (done (f x) = true -> ev (fun m => g m x) (f x)) ->
+  done (hashing rt key f x) = true -> ev (fun m => hashing rt key (g m) x) (hashing rt key f x).
+Proof. unfold hashing. intros Hfg Hd.
+  apply (ev_bind (fun m => g m x) (fun _ => hash_check rt key)); [|intros a _; apply ev_const|exact Hd].
+  apply Hfg. destruct (f x); cbn [bind done] in *; try discriminate Hd; reflexivity. Qed.
+Lemma ev_elem_conv (rt : runtime) k (f : pv -> res pv) (g : nat -> pv -> res pv) x :
+  (done (f x) = true -> ev (fun m => g m x) (f x)) ->
+  done (elem_conv rt k f x) = true -> ev (fun m => elem_conv rt k (g m) x) (elem_conv rt k f x).
+Proof. unfold elem_conv. destruct (hashes k); [apply ev_hashing|intros Hfg Hd; apply Hfg; exact Hd]. Qed.
+
 Lemma foldM_ev {A K} (s1 : A -> K -> res A) (s2 : nat -> A -> K -> res A) l : forall acc,
   (forall a k, In k l -> done (s1 a k) = true -> ev (fun m => s2 m a k) (s1 a k)) ->
   done (foldM s1 l acc) = true -> ev (fun m => foldM (s2 m) l acc) (foldM s1 l acc).
@@ -200,14 +212,18 @@ Proof.
     destruct (load rt x) as [d|e| |]; cbn [bind done] in *; try discriminate Hd; try apply ev_const.
     destruct (itervalues rt d) as [vs|e| |]; cbn [bind done] in *; try discriminate Hd; try apply ev_const.
     apply ev_bind; [|intros rs _; apply ev_const|exact Hd].
-    apply mapM_ev; [intros v _ Hv; apply IHn; assumption|].
+    apply (mapM_ev (elem_conv rt k (runu n r)) (fun m => elem_conv rt k (unm rt E m a)));
+      [intros v _ Hv; apply ev_elem_conv; [intros Hv'; apply IHn; assumption|exact Hv]|].
     destruct (bind_done _ _ Hd) as [[rs [Hrs _]]|[e He]]; [rewrite Hrs|rewrite He]; reflexivity.
   - (* map *) unfold map_body.
     destruct (load rt x) as [d|e| |]; cbn [bind done] in *; try discriminate Hd; try apply ev_const.
     destruct (iteritems rt E d) as [kvs|e| |]; cbn [bind done] in *; try discriminate Hd; try apply ev_const.
     apply ev_bind; [|intros rs _; apply ev_const|exact Hd].
     apply mapM_ev.
-    + intros kv _ Hkv. apply ev_bind; [| |exact Hkv].
+    + intros kv _ Hkh.
+      apply (ev_hashing rt fst _ (fun m (kv : pv * pv) => bind (unm rt E m kt (fst kv))
+               (fun k' => bind (unm rt E m vt (snd kv)) (fun v' => Ok (k', v')))) kv); [|exact Hkh].
+      clear Hkh. intros Hkv. apply ev_bind; [| |exact Hkv].
       * apply IHn; [assumption|]. destruct (bind_done _ _ Hkv) as [[k' [Hk _]]|[e He]]; [rewrite Hk|rewrite He]; reflexivity.
       * intros k' Hk'. rewrite Hk' in Hkv. cbn [bind] in Hkv. apply ev_bind; [|intros v' _; apply ev_const|exact Hkv].
         apply IHn; [assumption|]. destruct (bind_done _ _ Hkv) as [[v' [Hv _]]|[e He]]; [rewrite Hv|rewrite He]; reflexivity.
@@ -328,7 +344,10 @@ Proof.
     destruct (iteritems rt E x) as [kvs|e| |]; cbn [bind done] in *; try discriminate Hd; try apply ev_const.
     apply ev_bind; [|intros rs _; apply ev_const|exact Hd].
     apply mapM_ev.
-    + intros kv _ Hkv. apply ev_bind; [| |exact Hkv].
+    + intros kv _ Hkh.
+      apply (ev_hashing rt fst _ (fun m (kv : pv * pv) => bind (mar rt E m kt (fst kv))
+               (fun k' => bind (mar rt E m vt (snd kv)) (fun v' => Ok (k', v')))) kv); [|exact Hkh].
+      clear Hkh. intros Hkv. apply ev_bind; [| |exact Hkv].
       * apply IHn; [assumption|]. destruct (bind_done _ _ Hkv) as [[k' [Hk _]]|[e He]]; [rewrite Hk|rewrite He]; reflexivity.
       * intros k' Hk'. rewrite Hk' in Hkv. cbn [bind] in Hkv. apply ev_bind; [|intros v' _; apply ev_const|exact Hkv].
         apply IHn; [assumption|]. destruct (bind_done _ _ Hkv) as [[v' [Hv _]]|[e He]]; [rewrite Hv|rewrite He]; reflexivity.
